@@ -1,5 +1,6 @@
 //! One monitor module per property.
 
+pub mod c06;
 pub mod c09;
 pub mod certs;
 pub mod chains;
@@ -11,6 +12,11 @@ pub mod c13;
 pub mod c20;
 
 use crate::ctx::Ctx;
+
+#[cfg(all(feature = "crypto", feature = "ossl"))]
+pub fn certs_ku_lenient(v: &[u8]) -> Option<u16> {
+	certs::ku_lenient(v)
+}
 
 /// Runs the monitor for `ctx.prop`; returns (rule describing cases / non-triviality, exhaustiveness note).
 pub fn dispatch(ctx: &Ctx, _extra: &[String]) -> (String, String) {
@@ -34,6 +40,16 @@ pub fn dispatch(ctx: &Ctx, _extra: &[String]) -> (String, String) {
 			(
 				"case = one edit history (sequence of push/remove); exhaustive histories are enumerated (distinct by construction) and additionally the distinct reached states (hash of the model enumeration) are counted; a history is non-trivial when it has at least one operation".into(),
 				"all histories up to the stated length over 12 operations".into(),
+			)
+		},
+		#[cfg(all(feature = "crypto", feature = "ossl"))]
+		"C06" => {
+			use crate::keys::{build_pool, PoolSize};
+			let pool = build_pool(PoolSize::Small);
+			c06::run(ctx, &pool);
+			(
+				"case = one byte string offered as a CSR: base requests made by rcgen (every key family) and by OpenSSL (key/digest pairings rcgen never produces, unsupported extensions, repeated subject attributes), every single-bit flip of selected requests (enumerated), and random structure-aware / byte-level mutants (distinct by hash of the bytes); every ACCEPTED input is judged".into(),
+				"all single-bit flips of the selected base requests".into(),
 			)
 		},
 		#[cfg(all(feature = "crypto", feature = "ossl"))]
